@@ -37,6 +37,7 @@ PAL = [[0.25, 0.25, 0.25, 0.25], [0.97, 0.01, 0.01, 0.01], [1 / 3., 1 / 3., 1 / 
 MOTIF_SETS = [
     [[1, 1, 1]], [[4]], [[1, 4], [5, 1, 3]], [[1, 1, 1, 1], [4, 4]], [[3, 5], [1], [2, 4, 1], [6, 1]], [[5, 5, 1, 4]],
     [[1, 4, 1], [4, 1], [5, 4, 4]],
+    "PALINDROMES",          # PWMs that equal their own reverse complement exactly (E-box like), next to an ordinary motif
 ]
 
 
@@ -77,6 +78,15 @@ def build(cols, k):
 def motif_dict(mi):
     # motif names are the user's: in two of the sets a motif is literally called '<other name>-rc' (the suffix fimo uses internally
     # for the reverse-complement PWMs) and names repeat a prefix of one another
+    if MOTIF_SETS[mi] == "PALINDROMES":
+        def pal(cons, hi, lo):
+            w = len(cons)
+            pw = numpy.full((4, w), lo)
+            pw[cons, numpy.arange(w)] = hi
+            assert numpy.array_equal(pw, pw[::-1, ::-1])
+            return torch.from_numpy(pw)
+        return {"pal_ACGT": pal([0, 1, 2, 3], 0.7, 0.1), "pal_CATG": pal([1, 0, 3, 2], 0.85, 0.05), "m_5_1": torch.from_numpy(build([5, 1], 1)),
+                "pal_AT": pal([0, 3], 0.55, 0.15)}
     if mi in (2, 4):
         names = ["GATA", "GATA-rc", "GATA-rc-rc", "GA"]
         return {names[k]: torch.from_numpy(build(cols, k)) for k, cols in enumerate(MOTIF_SETS[mi])}
@@ -516,6 +526,8 @@ FASTA_SETS = [
     [("s1", "ACGTACGTTTGCA"), ("s2", "ac"), ("chrZ", "ACGNNACGacgTTA"), ("x", "ACG")],
     [("a", "TTTACG"), ("b", "A"), ("c", "CGTACGTAAACGTnnnACG"), ("d", "GGGGCGT")],
     [("only", "ACGACGACGACG")],
+    # ambiguity codes and gaps but no N anywhere in the file: every character outside the alphabet is an unknown character (contributes 0)
+    [("iupac", "ACGTRYKACGT-ACGTWSACGCATG"), ("plain", "acgtacgtacgtcatg"), ("gap", "AC-GT.ACGT*A")],
 ]
 
 
